@@ -435,25 +435,23 @@ func (d *Decoder) Style() Style {
 // to bother parsing any children.
 // All it does is look for the end of the pre block and line breaks.
 func (d *Decoder) scanPre(data []byte, atEOF bool) (advance int, token []byte, err error) {
-	switch idx := bytes.Index(data, fence); {
-	case idx == 0 && !atEOF && len(data) == len(fence):
-		// We need to make sure it's followed by a newline, so get more data.
-		return 0, nil, nil
-	case idx == 0 && (atEOF || (len(data) > len(fence) && data[len(fence)] == '\n')):
+	newLineIDX := bytes.IndexByte(data, '\n')
+	if bytes.HasPrefix(data, fence) && (newLineIDX == len(fence) || (newLineIDX < 0 && atEOF)) {
+		// The fence is followed by a newline or by the end of the input (if it
+		// could still be followed by a newline, more data is requested below).
 		d.mask |= BlockPreEnd
 		d.clearMask |= BlockPre | BlockPreEnd
 		l := len(fence)
-		if !atEOF {
+		if newLineIDX >= 0 {
 			l++
 		}
 		return l, data[:l], nil
 	}
-	if atEOF {
-		return len(data), data, nil
-	}
-	newLineIDX := bytes.IndexByte(data, '\n')
 	if newLineIDX >= 0 {
 		return newLineIDX + 1, data[:newLineIDX+1], nil
+	}
+	if atEOF {
+		return len(data), data, nil
 	}
 	return 0, nil, nil
 }
